@@ -25,6 +25,7 @@ class Gef:
         self.inline = inline
         self.stack = stack
         self.memo = {}
+        self.choice = {}
 
     def name(self, s):
         s = fam_erase(s)
@@ -40,6 +41,8 @@ class Gef:
         v = strip(v)
         if v is None:
             return 'none'
+        if v.id in self.choice:
+            return self.term(self.choice[v.id], depth + 1, visiting)
         if v.id in self.memo and not visiting:
             return self.memo[v.id]
         if depth > 14:
@@ -365,107 +368,231 @@ class Gef:
                     out.add((self.term(d), 'v%s' % (vals[0] if vals else 'other')))
         return tuple(sorted(out, key=str))
 
+    # ---- rendering of one event (under the current choice of merge operands) ---------------------------------
+    def _render_store(self, st):
+        prog = self.prog
+        root = strip(st.root)
+        acc = prog.accessor_call(root)
+        path = [self.field(p) for p in st.path if p != '*' and isinstance(p, str)]
+        if 'PAYLOAD' in path:
+            path = path[:path.index('PAYLOAD') + 1]
+        tgt = ('node(%s)' % self.term(acc[2])) if acc is not None else self.term(root)
+        return [(st.point, 'store', '%s%s := %s' % (tgt, ''.join('.' + p for p in path), self.term(st.value)), ())]
+
+    def _render_call(self, c):
+        prog = self.prog
+        out = []
+        tgt = prog.resolve(c)
+        if tgt is not None and tgt.path in prog.accessors:
+            return out
+        if tgt is not None:
+            from rules.live import mutates
+            if mutates(prog, tgt) or any((a.ty or '').startswith('&mut') for a in c.args):
+                if self.inline and tgt.path not in self.stack and len(self.stack) < 3 and not tgt.is_closure and tgt.path != self.fn.path:
+                    consts = {}
+                    for i, a in enumerate(c.args):
+                        a = strip(a)
+                        if a.id in self.choice:
+                            a = strip(self.choice[a.id])
+                        if a.kind == 'const' and isinstance(a.args[0], (int, bool)) and not prog.is_empty_ref(a) and not prog.is_nil_index(a):
+                            consts[i + 1] = int(a.args[0])
+                        elif a.kind == 'agg' and a.extra.get('akind') == 'adt' and a.extra.get('variant') is not None and 'idx' in a.extra['variant']:
+                            consts[('discr', i + 1)] = int(a.extra['variant']['idx'])     # an enum variant built on the spot: its discriminant is known
+                    tgt_s = prog.specialise(tgt, consts) if consts else tgt
+                    sub = Gef(prog, tgt_s, self.mirror, inline=True, stack=self.stack | {self.fn.path}).effects()
+                    argt = {'<P%d>' % (i + 1): self.term(a) for i, a in enumerate(c.args)}
+                    for (g2, kind2, text2) in sub:
+                        if kind2 == 'ret':
+                            continue
+                        g3 = tuple(sorted(((subst(ct, argt), tr) for ct, tr in g2), key=str))
+                        out.append((c.point, kind2, subst(text2, argt), g3))
+                else:
+                    cargs = [self.term(a) for a in c.args]
+                    perm = getattr(prog, '_arg_perm', {}).get(tgt.path)
+                    if perm and len(perm) == len(cargs):
+                        cargs = [cargs[i] for i in perm]
+                    out.append((c.point, 'call', '%s(%s)' % (self.name(tgt.name), ','.join(cargs[1:])), ()))
+        elif prog.classify(c) == 'std':
+            from program import VEC_MUTATORS
+            if c.callee_name() in VEC_MUTATORS and c.args and (c.args[0].ty or '').startswith('&mut'):
+                out.append((c.point, 'call', 'std::%s(%s)' % (c.callee_name(), ','.join(self.term(a) for a in c.args)), ()))
+        elif prog.classify(c) == 'callback':
+            if c.callee_name() == 'clone' and c.args and self.term(c.args[0]).endswith('.PAYLOAD'):
+                return out        # payload transfer: clone vs copy is abstracted
+            out.append((c.point, 'call', 'user::%s' % c.callee_name(), ()))
+        return out
+
+    def _render_ret(self, blk, v):
+        b = self.b
+        is_bool = b.locals[0]['ty'] == 'bool'
+        sv = strip(v)
+        if sv.id in self.choice:
+            sv = strip(self.choice[sv.id])
+        if is_bool and sv.kind == 'const' and sv.args[0] in (0, 1, True, False):
+            return [((blk, 10 ** 6), 'ret', 'true' if sv.args[0] else 'false', ())]
+        if is_bool and sv.kind in ('call', 'bin', 'un', 'discr') and (sv.kind != 'call' or sv.callee_name() in ('eq', 'ne')):
+            # a returned test is the same as branching on it and returning the constants
+            ct, tr = self.cond(sv, True)
+            return [((blk, 10 ** 6), 'ret', 'true', ((ct, tr),)), ((blk, 10 ** 6), 'ret', 'false', ((ct, not tr),))]
+        return [((blk, 10 ** 6), 'ret', self.term(v), ())]
+
+    def selection_merges(self, vals, block):
+        """merges (non-loop phis with 2-3 operands) that the given values, or the tests dominating `block`, read: {merge
+        block: [phi, ..]}; an effect that reads such a merge is one effect per way of reaching the merge"""
+        b = self.b
+        loops = b.cfg.loops()
+        found = {}
+        seen = set()
+        roots = [v for v in vals if v is not None]
+        for s_blk, d in b.switch_discr.items():
+            if any(b.cfg.pred[succ] == [s_blk] and b.cfg.dominates(succ, block) for succ in b.cfg.succ[s_blk]):
+                roots.append(d)
+        for r0 in roots:
+            for x in walk(r0):
+                if x.id in seen:
+                    continue
+                seen.add(x.id)
+                if x.kind == 'phi' and not x.extra.get('anyof') and 'same_as' not in x.extra and x.extra.get('local', -1) != -1 \
+                        and x.extra['block'] not in loops and 2 <= len(x.args) <= 3 and len(x.args) == len(x.extra.get('preds', ())) \
+                        and b.cfg.dominates(x.extra['block'], block) and (x.ty or '') != 'bool':
+                    if self.derived_cursor(x) is None:
+                        found.setdefault(x.extra['block'], []).append(x)
+        return found
+
     def effects(self):
         prog = self.prog
         b = self.b
         cfg = b.cfg
-        ev = []
+        raw = []
         for st in b.stores:
-            if st.point[0] not in cfg.reach:
-                continue
-            root = strip(st.root)
-            acc = prog.accessor_call(root)
-            path = [self.field(p) for p in st.path if p != '*' and isinstance(p, str)]
-            if 'PAYLOAD' in path:
-                path = path[:path.index('PAYLOAD') + 1]
-            tgt = ('node(%s)' % self.term(acc[2])) if acc is not None else self.term(root)
-            ev.append((st.point, 'store', '%s%s := %s' % (tgt, ''.join('.' + p for p in path), self.term(st.value))))
+            if st.point[0] in cfg.reach:
+                raw.append((st.point, 'store', st, [st.root, st.value]))
         for c in b.calls:
-            if c.point[0] not in cfg.reach:
-                continue
-            tgt = prog.resolve(c)
-            if tgt is not None and tgt.path in prog.accessors:
-                continue
-            if tgt is not None:
-                from rules.live import mutates
-                if mutates(prog, tgt) or any((a.ty or '').startswith('&mut') for a in c.args):
-                    if self.inline and tgt.path not in self.stack and len(self.stack) < 3 and not tgt.is_closure and tgt.path != self.fn.path:
-                        consts = {}
-                        for i, a in enumerate(c.args):
-                            a = strip(a)
-                            if a.kind == 'const' and isinstance(a.args[0], (int, bool)) and not prog.is_empty_ref(a) and not prog.is_nil_index(a):
-                                consts[i + 1] = int(a.args[0])
-                            elif a.kind == 'agg' and a.extra.get('akind') == 'adt' and a.extra.get('variant') is not None and 'idx' in a.extra['variant']:
-                                consts[('discr', i + 1)] = int(a.extra['variant']['idx'])     # an enum variant built on the spot: its discriminant is known
-                        tgt_s = prog.specialise(tgt, consts) if consts else tgt
-                        sub = Gef(prog, tgt_s, self.mirror, inline=True, stack=self.stack | {self.fn.path}).effects()
-                        argt = {'<P%d>' % (i + 1): self.term(a) for i, a in enumerate(c.args)}
-                        for (g2, kind2, text2) in sub:
-                            if kind2 == 'ret':
-                                continue
-                            g3 = tuple(sorted(((subst(ct, argt), tr) for ct, tr in g2), key=str))
-                            ev.append((c.point, kind2, subst(text2, argt), g3))
-                    else:
-                        cargs = [self.term(a) for a in c.args]
-                        perm = getattr(prog, '_arg_perm', {}).get(tgt.path)
-                        if perm and len(perm) == len(cargs):
-                            cargs = [cargs[i] for i in perm]
-                        ev.append((c.point, 'call', '%s(%s)' % (self.name(tgt.name), ','.join(cargs[1:]))))
-            elif prog.classify(c) == 'std':
-                from program import VEC_MUTATORS
-                if c.callee_name() in VEC_MUTATORS and c.args and (c.args[0].ty or '').startswith('&mut'):
-                    ev.append((c.point, 'call', 'std::%s(%s)' % (c.callee_name(), ','.join(self.term(a) for a in c.args))))
-            elif prog.classify(c) == 'callback':
-                if c.callee_name() == 'clone' and c.args and self.term(c.args[0]).endswith('.PAYLOAD'):
-                    continue        # payload transfer: clone vs copy is abstracted
-                ev.append((c.point, 'call', 'user::%s' % c.callee_name()))
+            if c.point[0] in cfg.reach:
+                raw.append((c.point, 'call', c, list(c.args)))
         from rules.gate import ret_cases
         if b.locals[0]['ty'] not in ('()', '!'):
-            is_bool = b.locals[0]['ty'] == 'bool'
             for blk, v in ret_cases(b):
-                sv = strip(v)
-                if is_bool and sv.kind == 'const' and sv.args[0] in (0, 1, True, False):
-                    ev.append(((blk, 10 ** 6), 'ret', 'true' if sv.args[0] else 'false'))
-                elif is_bool and sv.kind in ('call', 'bin', 'un', 'discr') and (sv.kind != 'call' or sv.callee_name() in ('eq', 'ne')):
-                    # a returned test is the same as branching on it and returning the constants
-                    ct, tr = self.cond(sv, True)
-                    ev.append(((blk, 10 ** 6), 'ret', 'true', ((ct, tr),)))
-                    ev.append(((blk, 10 ** 6), 'ret', 'false', ((ct, not tr),)))
-                else:
-                    ev.append(((blk, 10 ** 6), 'ret', self.term(v)))
-        # order: reverse post-order of blocks, then statement index
+                raw.append(((blk, 10 ** 6), 'ret', (blk, v), [v]))
         order = {blk: i for i, blk in enumerate(cfg.rpo)}
-        ev.sort(key=lambda e: (order.get(e[0][0], 10 ** 6), e[0][1]))
+        raw.sort(key=lambda e: (order.get(e[0][0], 10 ** 6), e[0][1]))
         out = []
-        for e in ev:
-            pt, kind, text = e[0], e[1], e[2]
-            g = self.guards(pt[0])
-            if len(e) > 3:
-                g = tuple(sorted(set(g) | set(e[3]), key=str))
-            # a value known equal to a constant on this path is that constant (`if x == EMPTY_REF { return x }`)
-            for (ct, tr) in g:
-                if tr is True and isinstance(ct, str) and ct.startswith('Eq(') and ct.endswith(')'):
-                    parts, depth_, cur_ = [], 0, ''
-                    for ch in ct[3:-1]:
-                        if ch in '({':
-                            depth_ += 1
-                        elif ch in ')}':
-                            depth_ -= 1
-                        if ch == ',' and depth_ == 0:
+        for (pt, rk, obj, vals) in raw:
+            merges = self.selection_merges(vals, pt[0]) if self.inline else {}
+            combos = [dict()]
+            if merges:
+                import itertools
+                blocks = sorted(merges)
+                sizes = [len(merges[m][0].args) for m in blocks]
+                total = 1
+                for z in sizes:
+                    total *= z
+                if total <= 8:
+                    combos = []
+                    for pick in itertools.product(*[range(z) for z in sizes]):
+                        ch = {}
+                        preds = []
+                        for m, i in zip(blocks, pick):
+                            for ph in merges[m]:
+                                if i < len(ph.args):
+                                    ch[ph.id] = ph.args[i]
+                            preds.append(merges[m][0].extra['preds'][i])
+                        ch['__preds__'] = preds
+                        combos.append(ch)
+            for ch in combos:
+                preds = ch.pop('__preds__', []) if ch else []
+                saved_choice, saved_memo = self.choice, self.memo
+                self.choice = dict(saved_choice)
+                self.choice.update(ch)
+                if ch:
+                    self.memo = {}
+                try:
+                    if rk == 'store':
+                        entries = self._render_store(obj)
+                    elif rk == 'call':
+                        entries = self._render_call(obj)
+                    else:
+                        entries = self._render_ret(obj[0], obj[1])
+                    g0 = set(self.guards(pt[0]))
+                    for pb in preds:
+                        g0 |= set(self.guards(pb))
+                finally:
+                    self.choice, self.memo = saved_choice, saved_memo
+                for (pt2, kind, text, extra) in entries:
+                    g = tuple(sorted(g0 | set(extra), key=str))
+                    # contradictory guards: this way of reaching the merge cannot lead here
+                    if any((ct, (not tr)) in g for (ct, tr) in g if isinstance(tr, bool)):
+                        continue
+                    # a value known equal to a constant on this path is that constant (`if x == EMPTY_REF { return x }`)
+                    for (ct, tr) in g:
+                        if tr is True and isinstance(ct, str) and ct.startswith('Eq(') and ct.endswith(')'):
+                            parts, depth_, cur_ = [], 0, ''
+                            for chx in ct[3:-1]:
+                                if chx in '({':
+                                    depth_ += 1
+                                elif chx in ')}':
+                                    depth_ -= 1
+                                if chx == ',' and depth_ == 0:
+                                    parts.append(cur_)
+                                    cur_ = ''
+                                else:
+                                    cur_ += chx
                             parts.append(cur_)
-                            cur_ = ''
-                        else:
-                            cur_ += ch
-                    parts.append(cur_)
-                    if len(parts) == 2:
-                        for cst, other in ((parts[0], parts[1]), (parts[1], parts[0])):
-                            if cst in ('EMPTY_REF', 'NIL_INDEX') and other not in ('EMPTY_REF', 'NIL_INDEX'):
-                                if kind == 'ret' and text == other:
-                                    text = cst
-                                elif kind == 'store' and text.endswith(' := ' + other):
-                                    text = text[:-len(other)] + cst
-            out.append((g, kind, text))
-        return sort_independent(out)
+                            if len(parts) == 2:
+                                for cst, other in ((parts[0], parts[1]), (parts[1], parts[0])):
+                                    if cst in ('EMPTY_REF', 'NIL_INDEX') and other not in ('EMPTY_REF', 'NIL_INDEX'):
+                                        if kind == 'ret' and text == other:
+                                            text = cst
+                                        elif kind == 'store' and text.endswith(' := ' + other):
+                                            text = text[:-len(other)] + cst
+                    out.append((g, kind, text))
+        # identical effects produced by different ways of reaching a merge are one effect
+        dedup = []
+        seen_e = set()
+        for e in out:
+            k = (e[0], e[1], e[2])
+            if e[1] == 'store' or e[1] == 'ret':
+                if k in seen_e:
+                    continue
+                seen_e.add(k)
+            dedup.append(e)
+        # the same effect under a test and under its negation is the effect without the test (a split that did not matter)
+        changed = True
+        rounds = 0
+        while changed and rounds < 6:
+            changed = False
+            rounds += 1
+            by_text = {}
+            for i, e in enumerate(dedup):
+                if e is not None and e[1] in ('store', 'ret'):
+                    by_text.setdefault((e[1], e[2]), []).append(i)
+            for key_, idxs in by_text.items():
+                if len(idxs) < 2:
+                    continue
+                for ai in range(len(idxs)):
+                    for bi in range(ai + 1, len(idxs)):
+                        ea, eb = dedup[idxs[ai]], dedup[idxs[bi]]
+                        if ea is None or eb is None:
+                            continue
+                        sa_, sb_ = set(ea[0]), set(eb[0])
+                        da, db = sa_ - sb_, sb_ - sa_
+                        if len(da) == 1 and len(db) == 1:
+                            (ca, ta), (cb, tb) = next(iter(da)), next(iter(db))
+                            if ca == cb and isinstance(ta, bool) and isinstance(tb, bool) and ta != tb:
+                                dedup[idxs[ai]] = (tuple(sorted(sa_ & sb_, key=str)), ea[1], ea[2])
+                                dedup[idxs[bi]] = None
+                                changed = True
+            dedup = [e for e in dedup if e is not None]
+            # merging may produce duplicates
+            seen2, d2 = set(), []
+            for e in dedup:
+                k2 = (e[0], e[1], e[2])
+                if e[1] in ('store', 'ret') and k2 in seen2:
+                    continue
+                seen2.add(k2)
+                d2.append(e)
+            dedup = d2
+        return sort_independent(dedup)
 
 
 def norm_eq(ct):
